@@ -76,7 +76,7 @@ AXV = [0, 1, -1]
 # ------------------------------------------------------------------ lift.vmap
 @with_real_dicts
 def vmap_like_per_index(pa, split, sa, xa, oa, shared, x0, x1, x2, x3, x4, x5, c0, c1,
-                        k0, mutable):
+                        k0, mutable, inout=False):
   """lift.vmap == calling the body once per index on the slices: 'params' along
   AXV[pa] (or shared when pa == 3), 'stats' along AXV[sa], 'consts' shared (axis
   None), argument x along xa (2 = broadcast), outputs stacked along oa; split rng
@@ -84,7 +84,7 @@ def vmap_like_per_index(pa, split, sa, xa, oa, shared, x0, x1, x2, x3, x4, x5, c
   p_axis = None if pa == 3 else pick(AXV, pa)
   s_axis = pick(AXV, sa)
   x_axis = None if xa == 2 else xa
-  if p_axis is None and split:
+  if p_axis is None and (split or inout):
     raise Reject()            # a shared collection cannot depend on a split stream
   seen_keys = []
 
@@ -100,8 +100,15 @@ def vmap_like_per_index(pa, split, sa, xa, oa, shared, x0, x1, x2, x3, x4, x5, c
         shared and scope.has_variable('consts', 'k')) else 0
     return Arr([int(w[0]) * xs, xs + c.value.at((0,)) + kk], (2,))
 
+  phase = {'init': True}
+
   def run(scope, x):
-    vaxes = {'params': p_axis, 'stats': s_axis}
+    pax = p_axis
+    if inout:
+      # output-only while initialising, input-only afterwards: the lists of in- and
+      # out-groups (and their axes) then differ
+      pax = L.Out(p_axis) if phase['init'] else L.In(p_axis)
+    vaxes = {'params': pax, 'stats': s_axis}
     if shared:
       vaxes['consts'] = None
     return L.vmap(body, variable_axes=vaxes, split_rngs={'params': bool(split)},
@@ -133,6 +140,7 @@ def vmap_like_per_index(pa, split, sa, xa, oa, shared, x0, x1, x2, x3, x4, x5, c
     if seen_keys[:N] != ([0, 1, 2] if split else [-1] * N):
       return False
     # apply on caller-chosen state
+    phase['init'] = False
     cs = [Arr([c0 + i, c1 - i], (2,)) for i in range(N)]
     vs['stats']['c'] = _stack(cs, s_axis)
     if shared:
@@ -155,7 +163,7 @@ def vmap_like_per_index(pa, split, sa, xa, oa, shared, x0, x1, x2, x3, x4, x5, c
 # ------------------------------------------------------------------ lift.scan
 @with_real_dicts
 def scan_like_loop(pa, split, use_carry_col, bcast, reverse, xa, oa, use_len,
-                   x0, x1, x2, c0, a0, k0):
+                   x0, x1, x2, c0, a0, k0, inout=False):
   """lift.scan == the Python loop: 'params' holds one slice per iteration along
   AXV[pa], the 'acc' collection is carried (each iteration sees the previous
   update), 'consts' is broadcast, the carry is threaded, ys are stacked along oa in
@@ -181,8 +189,13 @@ def scan_like_loop(pa, split, use_carry_col, bcast, reverse, xa, oa, use_len,
     y = Arr([xs + kk + av, new_carry], (2,))
     return new_carry, y
 
+  phase = {'init': True}
+
   def run(scope, c, x):
-    kw = dict(variable_axes={'params': p_axis}, split_rngs={'params': bool(split)},
+    pax = p_axis
+    if inout:
+      pax = L.Out(p_axis) if phase['init'] else L.In(p_axis)
+    kw = dict(variable_axes={'params': pax}, split_rngs={'params': bool(split)},
               in_axes=xa, out_axes=oa, reverse=bool(reverse))
     if use_carry_col:
       kw['variable_carry'] = 'acc'
@@ -218,6 +231,7 @@ def scan_like_loop(pa, split, use_carry_col, bcast, reverse, xa, oa, use_len,
     if set(vs) != {'params'} or cf != rc or not _stack(rys, oa).same(ys):
       return False
     # apply on caller-chosen state
+    phase['init'] = False
     if bcast:
       vs['consts'] = {'k': Arr([k0], (1,))}
     if use_carry_col:
@@ -324,14 +338,15 @@ def obligations(tier):
   return [
       Ob('vmap_like_per_index', vmap_like_per_index,
          dict(pa=I(0, 3), split=B(), sa=I(0, 2), xa=I(0, 2), oa=I(0, 1), shared=B(),
-              x0=v, x1=v, x2=v, x3=v, x4=v, x5=v, c0=v, c1=v, k0=v, mutable=B()),
+              x0=v, x1=v, x2=v, x3=v, x4=v, x5=v, c0=v, c1=v, k0=v, mutable=B(),
+              inout=B()),
          split=('pa', 'sa', 'xa'), timeout=600, funcs=F, per_path_timeout=60.0,
          bounds='3 indices; params axis 0/1/-1/shared, stats axis 0/1/-1, argument '
                 'axis 0/1/broadcast, out axis 0/1, a shared read-only collection, '
                 'split / un-split params stream, init then apply (mutable or not)'),
       Ob('scan_like_loop', scan_like_loop,
          dict(pa=I(0, 2), split=B(), use_carry_col=B(), bcast=B(), reverse=B(),
-              xa=I(0, 1), oa=I(0, 1), use_len=B(), x0=v, x1=v, x2=v, c0=v, a0=v, k0=v),
+              xa=I(0, 1), oa=I(0, 1), use_len=B(), x0=v, x1=v, x2=v, c0=v, a0=v, k0=v, inout=B()),
          split=('pa', 'use_carry_col', 'bcast', 'reverse'), timeout=600, funcs=F,
          per_path_timeout=60.0,
          bounds='3 iterations; scanned params axis 0/1/-1, carried collection, '
